@@ -164,6 +164,7 @@ fixed("C16", "C16-interface-possible-types", "cacf763", "possibleTypes of interf
 fixed("C16", "C16-input-field-default", "baffcba", "defaultValue missing from inputFields")
 
 fixed("C14", "C14-cache-key-ignores-operation-type", "e7018ac", "history { both(x:1) } ; mutation { both(x:1) } on a caching planner: the second request was executed with the first one's plan (mutation sent as query)")
+fixed("C14", "C14-cache-key-ignores-fragment-type-condition", "05e0e67", "history { things { ...F } } fragment F on IA { a } ; same document with fragment F on IB on a caching planner: the formatter prints a named fragment's name and body but not its type condition, so the second request was executed with the first one's plan")
 fixed("C18", "C18-close-unlocks-foreign-mutex", "f91c094", "stop racing an upstream complete: Close ignored TryLock's result and unlocked the mutex Listen's clean-up held (fatal error: sync: unlock of unlocked mutex), 1 preemption")
 fixed("C18", "C18-close-send-on-closed-channel", "f91c094", "stop or terminate racing an upstream complete/error/disconnect: Close sent on closeCh after Listen had closed it (panic in the go Close() goroutine)")
 fixed("C18", "C18-reader-send-on-closed-channel", "7351ec0", "upstream event racing a stop: the Subscribe reader sent the payload on respCh after Listen closed it; only the deferred send is covered by recover")
